@@ -795,7 +795,7 @@ class Rewriter:
                     groups.append(t)
             rep = body
             for g in reversed(groups):
-                rep = 'if %s %s' % (g, rep if rep.startswith('{') else '{ %s }' % rep)
+                rep = 'if %s %s' % (g, rep if rep.startswith('{') else '{\n%s\n}' % rep)
             code = code[:s0] + rep + code[cb + 1:]
             n += 1
         self.note('let-chain->nested-if', n)
@@ -1035,3 +1035,60 @@ def loops_in(body: str):
             continue
         res.append((mm.start(), kw, j))
     return res
+
+
+def split_stmts(inner: str):
+    """split the inside of a block into top-level statements (text chunks, in order)"""
+    m = mask(inner)
+    out, depth, last, i, n = [], 0, 0, 0, len(inner)
+    while i < n:
+        ch = m[i]
+        if ch in '([{':
+            depth += 1
+        elif ch in ')]}':
+            depth -= 1
+            if depth == 0 and ch == '}':
+                # block-like statement ends here unless followed by else / method call / operator / ; / ?
+                k = i + 1
+                while k < n and m[k] in ' \t\n':
+                    k += 1
+                rest = m[k:k + 6]
+                if not (rest.startswith('else') or rest[:1] in ('.', ';', '?', ',', ')') or rest[:2] in ('&&', '||', '==', '!=') or rest[:1] in ('+', '-', '*', '/', '=')) or k >= n:
+                    # only when the statement started with a block keyword
+                    head = inner[last:i + 1].lstrip()
+                    if re.match(r'(if|for|while|loop|match|unsafe|\{|proof)\b', head) or head.startswith('{'):
+                        out.append(inner[last:i + 1]); last = i + 1
+        elif ch == ';' and depth == 0:
+            out.append(inner[last:i + 1]); last = i + 1
+        i += 1
+    tail = inner[last:]
+    if tail.strip():
+        out.append(tail)
+    return out
+
+
+def slice_body(body: str, var: str, field: str):
+    """program slice of a straight-line builder function w.r.t. one field of the struct it builds.
+    Rule (purely syntactic, reported in the evidence): a top-level statement is DROPPED iff every occurrence of `var`
+    in it has the form `var.<other field>` (other != field), and it contains no return / ? / break / continue / panic.
+    Dropped statements therefore cannot write `var.field`, cannot replace `var`, and cannot leave the function."""
+    ob = body.index('{')
+    cb = body.rindex('}')
+    stmts = split_stmts(body[ob + 1:cb])
+    kept, dropped = [], []
+    for st in stmts:
+        mm = mask(st)
+        occ = [x for x in re.finditer(r'(?<![A-Za-z0-9_.])' + re.escape(var) + r'(?![A-Za-z0-9_])', mm)]
+        if not occ:
+            kept.append(st); continue
+        only_other = True
+        for x in occ:
+            f = re.match(r'\s*\.\s*([A-Za-z_][A-Za-z0-9_]*)', mm[x.end():])
+            if not f or f.group(1) == field:
+                only_other = False
+        escapes = re.search(r'(?<![A-Za-z0-9_])(return|break|continue)(?![A-Za-z0-9_])|\?|panic!|unreachable!', mm)
+        if only_other and not escapes:
+            dropped.append(st)
+        else:
+            kept.append(st)
+    return body[:ob + 1] + ''.join(kept) + body[cb:], len(dropped)
